@@ -153,6 +153,10 @@ type Method struct {
 	Config  *HTTPConfig `json:"config,omitempty"`
 	Headers []Header    `json:"headers,omitempty"`
 	// HasHeaders distinguishes an absent method_headers option from an empty list.
+	// ClientStreaming / ServerStreaming: the RPC is declared with `stream` on its request / response.
+	// sebuf has no streaming transport: every generator maps such an RPC to one plain HTTP route.
+	ClientStreaming bool `json:"client_streaming,omitempty"`
+	ServerStreaming bool `json:"server_streaming,omitempty"`
 }
 
 type Service struct {
